@@ -1100,7 +1100,7 @@ impl Scenario for C13 {
     fn runs(&self, tier: Tier) -> u64 {
         match tier {
             Tier::Quick => 700,
-            Tier::Thorough => 40_000,
+            Tier::Thorough => 15_000,
         }
     }
 
